@@ -147,8 +147,13 @@ Num txs: {"unknown" if self.txs is None else len(self.txs)}
         h256 = hash256(self.serialize())
         # interpret this hash as a little-endian number
         proof = little_endian_to_int(h256)
-        # return whether this integer is less than the target
-        return proof < self.target()
+        # negative, zero or overflowing targets can never be satisfied
+        try:
+            target = self.target()
+        except ValueError:
+            return False
+        # return whether this integer is at most the target
+        return 0 < target and proof <= target
 
     def validate_merkle_root(self):
         """Gets the merkle root of the tx_hashes and checks that it's
